@@ -50,6 +50,16 @@ class RawPeer(object):
             t += d
             self.q.append((t, b))
         self.started = True
+        self.stalled = False
+        self.stall = None
+        self._maybe_eof()
+
+    def _maybe_eof(self):
+        if self.eof_after and not self.q:
+            # the peer has written everything and closes its side (FIN): reads find end-of-stream from now on
+            self.stalled = True
+            self.stall = {'kind': 'eof'}
+            self.probe('peer_eof')
 
     def _check_stall(self, now):
         pass
@@ -78,6 +88,7 @@ class RawPeer(object):
         p.seq = self.total_emitted
         self.total_emitted += 1
         self.emitted += 1
+        self._maybe_eof()
         self.sent += b
         if self.sent_sessions:
             self.sent_sessions[-1] += b
